@@ -141,7 +141,7 @@ theorem C16_restart_crc (fuel : Nat) (h : Handle) (c : Chip) (hl : c.isLora = tr
     counter reset.) -/
 theorem C16_restart_rx (fuel : Nat) (h : Handle) (c : Chip) (wf : c.WF) (hl : c.isLora = true)
     (hm : h.activeModem = Gen.SX127x_MODULATION_LORA) (hcb : h.rxCb = true) (hexp : h.expected = 0)
-    (hcap : 255 ≤ h.packet.length)
+    (hcap : (c.lora.rd 0x13).toNat ≤ h.packet.length)
     (hcad : c.lora.rd 0x12 &&& 0x04 = 0) (hcrc : c.lora.rd 0x12 &&& 0x20 = 0) (hrx : c.lora.rd 0x12 &&& 0x40 ≠ 0) :
     wp (handleInterrupt fuel) h ⟨c, [], []⟩ (fun r h' s' => h'.curFreq = 0 ∧ s'.chip.shared = c.shared) := by
   apply wp_mono _ _ _ _ _ _ (C05_rx_done fuel h c wf hl hm hcb hexp hcap hcad hcrc hrx)
